@@ -70,3 +70,8 @@ claim("C08", "fault_enumeration", "Exhaustive enumeration of cut offsets x cut k
       "timeout / connection error / end-of-stream and never return incomplete data; UDSClient with retries and ECU.wait_for_ecu must recover through a reconnect once the peer accepts connections again; "
       "close() twice is harmless. Fault enumeration: all cut points of each exchange are covered; exchanges themselves are sampled.",
       "Loss is modelled as what asyncio's stream layer delivers (feed_eof / set_exception + failing writer / nothing); open_connection is patched in the harness process.")
+claim("C09", "exploration", "Hypothesis-generated session-transition graphs (and RandomUDSServer models) x depth x skip x thorough; the real SessionsScanner runs in-process under virtual time; BFS reference oracle",
+      "The real SessionsScanner.run() is executed against a reference session-graph ECU (arbitrary directed graphs with cycles, long chains, islands, silent edges, three NRC variants) and against RandomUDSServer models; "
+      "the reported sessions must equal the BFS set reachable within depth on the graph without skipped nodes, recorded steps must be real walks, skipped sessions must never be requested, and the scan must stay within a "
+      "request budget. Exploration over generated graphs.",
+      "The default session is enterable from every session (ISO); in-memory transport and virtual time replace network and clock.")
